@@ -76,6 +76,18 @@ def peel(t):
             return t
 
 
+def deep_peel(t):
+    """peel() applied along the whole access path: &(*p).0 -> p.0"""
+    t = peel(t)
+    if t[0] == 'field':
+        return ('field', deep_peel(t[1]), t[2])
+    if t[0] == 'payload':
+        return ('payload', deep_peel(t[1]), t[2])
+    if t[0] == 'load':
+        return deep_peel(t[1])
+    return t
+
+
 def self_field_name(t, param=1):
     """If t is (a reference to / a value inside) self.<f>... return f: the first field on the access path from the
     parameter (`&mut *arg1.inner` -> inner ; `*(arg1.sink.0.pointer as *const dyn ..)` -> sink)."""
